@@ -50,6 +50,25 @@ type seqResult struct {
 
 // exec: fresh instance, replay hist, oracle after the last step.
 func execHist(u *universe, cfgName string, ops []op, hist []int, wantParentKey string) (out seqSucc, mismatch string, reaps int) {
+	return execHistRetry(u, cfgName, ops, hist, wantParentKey, 0)
+}
+
+// orderControlled: the build contains the seam that lets the harness choose the order in which promoteExecutables(nil)
+// visits the queued senders (set by seamActive()).
+var orderControlled = true
+
+// seamActive commits one empty block and looks whether the seam was called.
+func seamActive(u *universe, cfgName string) bool {
+	in := u.newInst(cfgName)
+	defer in.close()
+	before := mempl.VerifC15OrderCalls
+	if _, k, w := in.apply(op{opCommitReaped, 0}, 0); k != "" {
+		vk.Fatalf("committing an empty block on the fresh chain violates: %s %s", k, w)
+	}
+	return mempl.VerifC15OrderCalls > before
+}
+
+func execHistRetry(u *universe, cfgName string, ops []op, hist []int, wantParentKey string, retries int) (out seqSucc, mismatch string, reaps int) {
 	in := u.newInst(cfgName)
 	defer in.close()
 	if len(hist) > 0 {
@@ -70,6 +89,12 @@ func execHist(u *universe, cfgName string, ops []op, hist []int, wantParentKey s
 		last := i == len(hist)-1
 		if last && wantParentKey != "" {
 			if got := hashKey(in.stateString()); got != wantParentKey {
+				if !orderControlled && retries < 200 {
+					// the build has no promotion-order seam (see tools/gen_c15_maporder.py): Go's map order decided; try again
+					retries++
+					in.close()
+					return execHistRetry(u, cfgName, ops, hist, wantParentKey, retries)
+				}
 				return out, fmt.Sprintf("replaying %v gives key %s, the search recorded %s: %s", hist[:i], got, wantParentKey, in.stateString()), in.reaps
 			}
 		}
@@ -132,6 +157,7 @@ func seqWorker(r *vk.Run, job *seqJob) {
 	}
 	u := buildUniverse(!r.Quick(), pcs)
 	ops := u.ops()
+	orderControlled = seamActive(u, pcs[0].Name)
 	vk.WorkerLoop(len(job.Nodes), func(i int) interface{} {
 		n := job.Nodes[i]
 		res := &seqResult{}
@@ -181,7 +207,28 @@ type seqStats struct {
 	OrderCalls          int
 }
 
-func scratchDir() string { return fmt.Sprintf("/dev/shm/C15-%d", os.Getpid()) }
+// scratchDir: /dev/shm/C15-<pid of the parent>; workers are handed a job file inside it and keep their own files there,
+// so that removing it at the end of the run removes everything.
+func scratchDir() string {
+	if *flagJob != "" {
+		return filepath.Dir(*flagJob)
+	}
+	return fmt.Sprintf("/dev/shm/C15-%d", os.Getpid())
+}
+
+// sweepStale removes scratch directories of C15 runs whose process is gone (killed runs).
+func sweepStale() {
+	ds, _ := filepath.Glob("/dev/shm/C15-*")
+	for _, d := range ds {
+		var pid int
+		if _, err := fmt.Sscanf(filepath.Base(d), "C15-%d", &pid); err != nil || pid == os.Getpid() {
+			continue
+		}
+		if _, err := os.Stat(fmt.Sprintf("/proc/%d", pid)); os.IsNotExist(err) {
+			os.RemoveAll(d)
+		}
+	}
+}
 
 func isoWorkers() int {
 	var w int
